@@ -29,7 +29,7 @@ LEVEL_NOTE = ("virtual clock (async_solipsism + time_machine); timer lateness is
               "additions, verdicts use sink-observed timestamps")
 RULE = ("seeded configurations x latency scripts x addition scripts; distinct = canonical case JSON; non-trivial = >=8 "
         "ticks observed and (a latency >= 1 period or a series added while running or a non-aligned creation phase)")
-REQUIRED_BUCKETS = ["alignment-point-centuries-back", "period-of-18-hours-or-more", "clock-moves-on-between-readings-while-the-resampler-is-constructed",
+REQUIRED_BUCKETS = ["first-samples-as-a-burst-just-before-a-tick", "alignment-point-centuries-back", "period-of-18-hours-or-more", "clock-moves-on-between-readings-while-the-resampler-is-constructed",
                     "align:none", "align:epoch", "align:past-nonmultiple", "align:future", "creation-exactly-aligned",
                     "creation-1us-off", "align_to-in-non-utc-timezone", "align_to-in-daylight-saving-zone", "resampling-function-yields-NaN-for-some-ticks", "latency>=1period", "latency-several-periods", "series-added-between-ticks",
                     "series-added-during-slow-tick", "catch-up-observed", "multi-series", "actor-tier",
@@ -75,6 +75,15 @@ def gen(rng: Any, tier: str, i: int) -> Any:
         for _ in range(ticks * 2):
             ev.append([round(period * rng.choice([0.3, 0.5, 1.0, 1.7]), 6), "now", "ok"])
         series.append({"add_at": add_at, "events": ev})
+    if ak == "none" and rng.random() < 0.25:
+        # a series whose first samples arrive as a burst (five samples with one timestamp) two microseconds before a
+        # tick: elapsed time / samples rounds to a period of zero
+        kk = rng.randint(3, ticks - 4)
+        ev = [[0.0, "now", "ok"]] + [[0.0, "same", "ok"] for _ in range(4)]
+        for _ in range(ticks * 2):
+            ev.append([round(period * rng.choice([0.3, 0.5, 1.0, 1.7]), 6), "now", "ok"])
+        series.append({"add_at": round(kk * period - 2e-6, 6), "events": ev, "burst_before_tick": True})
+        ns += 1
     series.sort(key=lambda s: s["add_at"])
     # one series may end while the others go on: its source closes (resample() raises, the harness removes it like
     # the resampling actor does) or the user removes it; the *other* series must not notice
@@ -452,6 +461,8 @@ def check(case: dict[str, Any], rec: Any) -> None:
         rec.bucket("multi-series")
     r = resamp.run_case(c)
     rec.count("runs")
+    if any(x.get("burst_before_tick") for x in c["series"]):
+        rec.bucket("first-samples-as-a-burst-just-before-a-tick")
     if p >= 64800.0:
         rec.bucket("period-of-18-hours-or-more")
     if c["align"] is not None and c["align"] < -1e10:
